@@ -106,6 +106,14 @@ def run(repo, chk):
     chk.expect('bisect.bisect_right(self.max_vals, cur_val)' in add and 'self.max_vals.insert(idx, cur_val)' in add, 'C04.A1',
                'Tracker.add', 'add must start tracking from the current value', TRACKER)
 
+    _tracker(repo, chk)
+    # a guarded index must not be re-read after its check (shared with C01.R1: pending operands are protected)
+    if chk.__class__.__name__ == 'Check':
+        chk.rule('C04.A9', 'checked values are the used values: an index / operand is not re-read from a mutable location after its '
+                           'guard, and held registers are not clobbered between guard and use (shared with C01.R1)')
+        from . import c01
+        c01.run(repo, Remap(chk, {'C01.R1': 'C04.A9'}))
+
     # ---------------- A2 -------------------------------------------------------------
     for armname in ('ArrayLiteral', 'ArrayInitializer'):
         n = 0
@@ -209,6 +217,80 @@ def run(repo, chk):
     chk.expect(src(sect).count('_store_const') == 4, 'C04.A7', 'Section.CONST', 'all four store slots of the const section must be _store_const', 'hidc/codegen/asm.py')
     chk.not_decided = ['a quantitative worst-case stack bound for an arbitrary program',
                        'reads of uninitialised string elements (excluded by the property)']
+
+
+def _tracker(repo, chk):
+    """Tabulate the checkpoint tracker against its specification: the value a guard is finalised with is the
+    maximum of the value at add() time and every update() until the level it was added in is popped."""
+    import itertools
+    from ..consteval import Interp
+    it = Interp(repo)
+    it.step_limit = 50_000_000
+    ns = it.load(TRACKER)
+    Tr = ns.get('Tracker')
+    if Tr is None:
+        raise AnalysisError('Tracker class not found')
+    vals = (1, 2, 3)
+    ops = [('A', v) for v in vals] + [('U', v) for v in vals] + [('P', 0), ('Q', 0)]
+    n = 0
+    bad = None
+    for length in range(1, 6 if getattr(chk, 'tier', 'quick') == 'thorough' else 5):
+        for seq in itertools.product(ops, repeat=length):
+            depth = 0
+            ok = True
+            for o, _ in seq:
+                if o == 'P':
+                    depth += 1
+                elif o == 'Q':
+                    if depth == 0:
+                        ok = False
+                        break
+                    depth -= 1
+            if not ok or not any(o == 'A' for o, _ in seq):
+                continue
+            n += 1
+            t = Tr()
+            dyn = []          # (dyn value, level at add, reference max)
+            level = 0
+            live = []
+            try:
+                for o, v in seq:
+                    if o == 'A':
+                        d = t.add(v)
+                        live.append([d, level, v, False])
+                    elif o == 'U':
+                        t.update(v)
+                        for rec in live:
+                            if not rec[3]:
+                                rec[2] = max(rec[2], v)
+                    elif o == 'P':
+                        t.push_level()
+                        level += 1
+                    elif o == 'Q':
+                        t.pop_level()
+                        for rec in live:
+                            if rec[1] == level:
+                                rec[3] = True
+                        level -= 1
+                while level >= 0:
+                    t.pop_level()
+                    for rec in live:
+                        if rec[1] == level:
+                            rec[3] = True
+                    level -= 1
+                got = [rec[0]._data for rec in live]
+                want = [rec[2] for rec in live]
+            except Exception as e:      # noqa
+                got, want = f'{type(e).__name__}: {e}', None
+            if got != want:
+                bad = (seq, got, want)
+                break
+        if bad:
+            break
+    chk.count('tracker_sequences', n)
+    chk.expect(bad is None, 'C04.A1', 'Tracker add/update/pop_level semantics',
+               f'after {bad[0] if bad else ""} the guards were finalised with {bad[1] if bad else ""}, specification says {bad[2] if bad else ""}: '
+               'a guard must see the maximum frame size reached while its level is open', TRACKER)
 
 
 def _scale(repo, chk, gf):
